@@ -74,7 +74,7 @@ Proof. exact rejected_call_changes_nothing. Qed.
       callers without code on any actor other than the pinned unrestricted ones. *)
 Theorem C11_internal_api_closed : forall a e m c,
   In a actors -> ~ In (a_name a) spec_unrestricted -> a_has_dispatch a = true ->
-  m < FIRST_EXPORTED_METHOD_NUMBER ->
+  0 < m < FIRST_EXPORTED_METHOD_NUMBER ->
   (in_class e c EvmContract = true \/ in_class e c C_NonBuiltin = true \/ in_class e c C_NoCode = true) ->
   dispatch a e m c = RejInternal.
 Proof. exact internal_api_closed. Qed.
@@ -87,7 +87,7 @@ Proof. split; [exact unrestricted_pinned|reflexivity]. Qed.
       fires first); the only actors with a fallback handler are pinned, with the number from which
       the fallback accepts. *)
 Theorem C11_undefined_method_rejected : forall a e m c,
-  In a actors -> find_row a m = None ->
+  In a actors -> m <> 0 -> find_row a m = None ->
   (forall f, a_fallback a = Some f -> m < f_from f) ->
   dispatch a e m c = Unhandled \/ dispatch a e m c = RejInternal.
 Proof. exact undefined_method_rejected. Qed.
